@@ -199,6 +199,9 @@ CLASS_DOCS = {
     'F6d': ">>> 1 == 1\n1\n",
     'F6e': ">>> x = 5\n    >>> x\n    5\n",
     'F6f': ">>> b'abc'  # doctest: +ELLIPSIS\nb...\n",
+    'F6g': ">>> print('<BLANKLINE>')\n<BLANKLINE>\n",
+    'F6h': ">>> print('progress 10%\\rdone')  # doctest: +ELLIPSIS\nprogress...\n",
+    'F6i': ">>> print('.\\x1b[0ma')  # doctest: +ELLIPSIS\n.\x1b[0m...\n",
 }
 
 
@@ -302,6 +305,12 @@ def _pipeline_worker(args):
                         known['F6d'] = known.get('F6d', 0) + 1
                     elif (fl & std.ELLIPSIS) and '...' in want and _PREFIXED.search(got):
                         known['F6f'] = known.get('F6f', 0) + 1
+                    elif '<BLANKLINE>' in got:
+                        known['F6g'] = known.get('F6g', 0) + 1
+                    elif '\r' in got or '\r' in want:
+                        known['F6h'] = known.get('F6h', 0) + 1
+                    elif '\x1b' in got + want or '\x9b' in got + want:
+                        known['F6i'] = known.get('F6i', 0) + 1
                     elif len(bad) < 5:
                         bad.append((want, got, fl))
     return n, bad, known
@@ -311,7 +320,9 @@ def pipeline_compat(ctx):
     import itertools as it
     quick = ctx.tier == 'quick'
     wtoks = ['a', 'b', ' ', '\n', '...', '<BLANKLINE>', "'", 'True', '1'] + ([] if quick else ['\t', 'u', '"', '0', 'False'])
-    gtoks = [t for t in wtoks if t != '<BLANKLINE>']       # a program that prints the marker text itself is not considered
+    # (outputs that hold the marker text itself, carriage returns and colour codes: recorded classes F6g, F6h, F6i)
+    wtoks += ['\r', '\x1b[0m'] if not quick else []
+    gtoks = list(wtoks)
     W = sorted({''.join(t) for n in range(0, 4) for t in it.product(wtoks, repeat=n)})
     G = sorted({''.join(t) for n in range(0, 4) for t in it.product(gtoks, repeat=n)})
     jobs = [(W[i:i + 40], G) for i in range(0, len(W), 40)]
@@ -421,12 +432,12 @@ def run(ctx):
     ctx.add_rule('%d doctests generated in standard syntax (assignments, prints incl. blank lines, echoed expression values, None results, multi-line literals, loops, defs, '
                  'semicolon lines, comments, raising examples with traceback wants, # doctest: +SKIP / +ELLIPSIS / +NORMALIZE_WHITESPACE / +IGNORE_EXCEPTION_DETAIL, '
                  'triple-quoted strings, bare ... terminators, blank-line and prose separation, indentation) with wants produced by REPL execution; only texts the '
-                 'standard DocTestRunner(optionflags=0) passes count (non-trivial); plus the 5 recorded incompatibility classes; ELLIPSIS matcher: every want with a marker up to length 6/7 over {a . blank newline} '
+                 'standard DocTestRunner(optionflags=0) passes count (non-trivial); plus the recorded incompatibility classes; ELLIPSIS matcher: every want with a marker up to length 6/7 over {a . blank newline} '
                  'x every got up to length 5/6 + seeded multi-marker wants: CPython doctest._ellipsis_match vs the model of it, and std accepts => checker._ellipsis_match accepts' % len(docs))
     ctx.sample({'doctest': docs[1]})
     ctx.sample({'doctest': docs[-1]})
     ctx.assumptions += ['Guard20: the generator avoids the recorded classes F6 (an expression example that both prints and has a non-None value), F6b (expected SyntaxError at compile time), '
-                        'F6c (expected SystemExit), F6d (True accepted for 1), F6e (adjacent examples of different indentation), F6f (prefix letter in front of a wildcard); they are re-evaluated separately every run',
+                        'F6c (expected SystemExit), F6d (True accepted for 1), F6e (adjacent examples of different indentation), F6f (prefix letter in front of a wildcard), F6g (output holds the text <BLANKLINE>), F6h (carriage returns), F6i (colour codes next to dots); they are re-evaluated separately every run',
                         'the standard library doctest module of CPython 3.12 is the oracle']
 
 
